@@ -19,6 +19,7 @@ def _contracts():
 
 
 FOUND = []
+CONFIG_MODELS = []       # (label, configuration) of solver models of the Typstyle::new obligation
 MODELS = []      # concrete (content, width) of solver models of the string-level obligations
 
 ERR_SOURCES = ['#(', '#let x = (1,', '$ x', '*bold', '#{ let }', '#f(a b)', '  #(  \n\n', '#(\t']
@@ -30,6 +31,25 @@ def native_confirm(S):
     """evaluate the refusal / fallback / hygiene observables of the public API natively on a small corpus x configurations"""
     from mirsym.session import hexs, unhexs
     from .common import hygiene_ok, show
+    # a configuration the constructor does not keep: the option must still take effect
+    for lab, info in CONFIG_MODELS[:12]:
+        c = info['config']
+        w, t = min(c['max_width'], 1 << 30), min(c['tab_spaces'], 64)
+        if 'reorder_import_items' in lab:
+            src = '#import "m": b, a\n'
+            on = S.driver.call('format', hexs(src), w, t, 1)
+            off = S.driver.call('format', hexs(src), w, t, 0)
+            if on[0] == 'ok' and off[0] == 'ok' and on[1] == off[1]:
+                return dict(api='Typstyle::format_content', source=src, width=w, tab=t, reorder=1,
+                            what='with tab_spaces = %d and max_width = %d the option reorder_import_items has no effect: %s is formatted to %s with the option on' % (t, w, show(src), show(unhexs(on[1]))))
+        if 'tab_spaces' in lab:
+            src = '#{\n  a\n  b\n}\n'
+            r1 = S.driver.call('format', hexs(src), 80, t, 0)
+            if r1[0] == 'ok':
+                ind = [len(l) - len(l.lstrip(' ')) for l in unhexs(r1[1]).split('\n') if l.strip() == 'a']
+                if ind and ind[0] != t:
+                    return dict(api='Typstyle::format_content', source=src, width=80, tab=t,
+                                what='with tab_spaces = %d the body of %s is indented by %d blanks' % (t, show(src), ind[0]))
     # solver models of the string-level obligations first
     for info in MODELS[:20]:
         src, w = info['content'], min(info['width'], 1 << 40)
@@ -94,6 +114,7 @@ def report(S):
 def run(S, want_witness=True, collect=None):
     del FOUND[:]
     del MODELS[:]
+    del CONFIG_MODELS[:]
 
     def note(viol):
         for lab, mdl, info in viol:
@@ -247,6 +268,32 @@ def run(S, want_witness=True, collect=None):
     note(ex.violations)
     if want_witness:
         S.require_witness(ob, ['fallback', 'formatted'])
+
+    # (e) Typstyle::new keeps the configuration it is given (every front-end builds its formatter through it)
+    f_new = S.find_fn(core, 'Typstyle::new')
+
+    def body_new(ctx):
+        m = S.machine(core, contracts, ctx)
+        cfg = sym_cfg(ctx)
+        try:
+            t = m.call_fn(f_new, [cfg])
+        except Panic as p:
+            ctx.must_hold(False, 'Typstyle::new panics: %s' % p.msg)
+            S.absorb(m)
+            return
+        S.absorb(m)
+        got = t.get('config') if isinstance(t, Agg) else None
+        describe = lambda mdl: dict(config=dict(tab_spaces=mdl.eval(cfg.fields[0], model_completion=True).as_long(), max_width=mdl.eval(cfg.fields[1], model_completion=True).as_long(),
+                                                blank_lines_upper_bound=mdl.eval(cfg.fields[2], model_completion=True).as_long(), reorder_import_items=z3.is_true(mdl.eval(cfg.fields[3], model_completion=True))))
+        names = ('tab_spaces', 'max_width', 'blank_lines_upper_bound', 'reorder_import_items')
+        for i_, nm in enumerate(names):
+            ctx.must_hold(got is not None and i_eq(got.fields[i_], cfg.fields[i_]), 'Typstyle::new does not keep the configuration it is given: %s' % nm, describe)
+        ctx.witness('constructed')
+    ob, ex = S.explore('lib.Typstyle::new', 'Typstyle::new(config) holds exactly that configuration, for every value of its four fields', body_new)
+    for lab, mdl, info in ex.violations:
+        FOUND.append(lab)
+        if info:
+            CONFIG_MODELS.append((lab, info))
 
     # (d) format_with_width on a content of symbolic characters: the text handed to the parser is the caller's text, and the refusal
     #     returns the caller's text (every scalar value, so also a byte order mark, blanks, line ends at either end)
